@@ -1,0 +1,13 @@
+//go:build verif
+
+package cast
+
+// Assumed contracts (unsafe code: trusted, not verified) for the deductive
+// verifier in /verif (gocv). Comment-only file under the `verif` build tag.
+
+//@ assumed func StringToByteArray(v string) []byte
+//@   ensures len(r0) == len(v) && cap(r0) == len(v) && off(r0) == 0 && arr(r0) == strdata(v)
+//@   ensures forall(i, 0, len(v), r0[i] == v[i])
+
+//@ assumed func ByteArrayToString(buf []byte) string
+//@   ensures len(r0) == len(buf) && forall(i, 0, len(buf), r0[i] == buf[i])
